@@ -21,6 +21,7 @@ def probe(t): return ('probe', t)
 def ematch(p): return ('ematch', p)
 def rule(name, lhs, rhs): return ('rule', name, lhs, rhs)
 def rewrite(*rules): return ('rewrite', list(rules))
+def mmatch(*eqs): return ('mmatch', [list(e) for e in eqs])
 def extract(t, cf='AstSize'): return ('extract', t, cf)
 
 QUICK = [
@@ -87,6 +88,10 @@ RW = [
       note='non-linear pattern (h $x $y $x) against three distinct slots: must not match under any naming'),
     T('M4', 'Lb', 5, [add(app(var(0), app(var(1), var(2)))), ematch(app(var(3), app(var(4), var(3)))), ematch(app(var(3), app(var(3), var(4))))], distinct=[[0, 1, 2]], late={3: 1, 4: 1},
       note='non-linear pattern spread over several e-nodes against three distinct slots: must not match under any naming'),
+    T('MM1', 'Lb', 3, [add(lam(0, var(0))), add(lam(0, var(1))), mmatch(('?o', lam(2, '?b')), ('?b', var(2)))], late={2: 2},
+      note='multi-pattern ?o == (lam $x ?b), ?b == (var $x): the bound slot is reused by the second equation'),
+    T('MM2', 'Lb', 3, [add(app(var(0), var(1))), add(app(var(0), var(0))), mmatch(('?r', app('?a', '?b')), ('?a', var(2)), ('?b', var(2)))], late={2: 2},
+      note='multi-pattern with a repeated slot across equations: ?r == (app ?a ?b), ?a == (var $x), ?b == (var $x)'),
     T('M2', 'Lb', 4, [add(app(var(0), var(1))), add(lam(0, app(var(0), var(1)))), ematch(app('?a', '?b')), ematch(app('?a', '?a')), ematch(lam(2, '?b')), ematch(app(var(3), '?b'))], late={2: 4, 3: 5},
       note='patterns with variables, a repeated variable, a binder, a nested leaf'),
     T('R1', 'Lf', 6, [add(f(0, 1)), add(f(2, 3)), union(f(0, 1), f(2, 3)), rewrite(rule('f-to-g', f(4, 5), g(5, 4))), probe(g(1, 0)), probe(g(3, 2)), rewrite(rule('f-to-g', f(4, 5), g(5, 4)))], late={4: 3, 5: 3},
